@@ -397,9 +397,24 @@ def leg_reroute(run):
         def raiser(t=t):
             raise RerouteWSGI(t)
         routes.append(('/raised/%s' % name, raiser))
-    app = Application(routes + [('/x', lambda: Response('x'))])
-    for name, (status_, headers_, body_) in targets.items():
-        for path in ('/as_endpoint/%s/a/b' % name, '/raised/%s' % name, '/as_endpoint/%s/' % name):
+    for name in targets:
+        def raiser2(t=make_target(name)):
+            raise RerouteWSGI(t)
+        routes.append(('/branchy/%s/' % name, raiser2))          # a BRANCH route that re-routes
+    apps = {'redirect': Application(routes + [('/x', lambda: Response('x'))]),
+            'rewrite': Application(routes + [('/x', lambda: Response('x'))], slash_mode='rewrite')}
+    cases = []
+    for name in targets:
+        for path in ('/as_endpoint/%s/a/b' % name, '/raised/%s' % name, '/as_endpoint/%s/' % name, '/branchy/%s/' % name):
+            cases.append(('redirect', name, path))
+        # rewrite mode executes a branch route for the path WITHOUT its trailing slash: the target must still see the
+        # request as it came in
+        for path in ('/branchy/%s' % name, '/branchy//%s' % name, '/branchy/%s/' % name, '/raised/%s' % name):
+            cases.append(('rewrite', name, path))
+    for amode, name, path in cases:
+        app = apps[amode]
+        status_, headers_, body_ = targets[name]
+        if True:
             for m in ('GET', 'POST', 'HEAD'):
                 env = create_environ(path, method=m, headers={'X-Custom': 'v', 'Cookie': 'a=b'}, query_string='q=1')
                 before = dict((k, env[k]) for k in env if isinstance(env[k], str))
